@@ -113,7 +113,7 @@ Definition update_key (g : graph) (key : string) (meta : option string) (bs : li
 Definition import (notes : list (string * option string * list dblock)) : res graph :=
   do g <- fold_left (fun acc n => do g <- acc;
                        let '(name, meta, bs) := n in
-                       build_note g (key_from_file_name name) meta bs) notes (Ok empty_graph);
+                       build_note g (key_name name) meta bs) notes (Ok empty_graph);   (* graph.rs:316 Key::name *)
   Ok (fold_left (fun g kv => refresh_title g (fst kv)) (gr_keys g) g).
 
 (* Graph::to_markdown *)
